@@ -18,6 +18,8 @@ KEBAB = {"FilePreCreate": "file-pre-create", "FilePostCreate": "file-post-create
          "ChallengeDns01Clean": "challenge-dns-01-clean", "ChallengeTlsAlpn01": "challenge-tls-alpn-01",
          "ChallengeTlsAlpn01Clean": "challenge-tls-alpn-01-clean", "PostOperation": "post-operation"}
 ALL_KV = dict(CHALLENGE_KV, **FILE_KV, **POSTOP_KV)
+# ... and every scenario variable once more, read through the template variable `env`
+ALL_KV.update({"te%d%d%d%d" % pt: "{{ env.VT_E%d%d%d%d }}" % pt for pt in [(p, g, c, i) for p in (0, 1) for g in (0, 1) for c in (0, 1) for i in (0, 1)]})
 MC_CFG = """SPECIFICATION MCSpec
 CONSTANTS
   Enforce = %s
@@ -210,7 +212,8 @@ def hooks_layer(x):
             env = e.get("env") or {}
             is_acct = e["hook"] == "a1"
             role = "chal" if (cur_type or "").startswith("challenge-") else "other"
-            envs = [] if is_acct else [{"p": bool(p), "g": bool(g), "c": bool(c), "i": bool(i), "value": env.get(env_name((p, g, c, i)), "absent")} for (p, g, c, i) in PATTERNS]
+            envs = [] if is_acct else [{"p": bool(p), "g": bool(g), "c": bool(c), "i": bool(i), "value": env.get(env_name((p, g, c, i)), "absent"),
+                                             "tvalue": kv.get("te%d%d%d%d" % (p, g, c, i)) or "absent"} for (p, g, c, i) in PATTERNS]
             obs, exp = {}, {}
             if (cur_type or "").startswith("file-"):
                 d = kv.get("file_directory", "")
